@@ -101,8 +101,11 @@ def check_penalty(H_before, H_after, P, rel, lam, issued, warned_unsat, max_bits
         return {"new_ancillas": A_new, "rows": 0, "skipped": True}
     order = xs + an
     lam = Fraction(lam)
-    tF, dF = F.table(order)
-    tP, dP = P.table(xs)
+    try:
+        tF, dF = F.table(order)
+        tP, dP = P.table(xs)
+    except (OverflowError, ValueError):
+        return {"new_ancillas": A_new, "rows": 0, "skipped": True}      # numbers too large for an exact int64 table
     tF = tF.reshape(1 << na, 1 << nx)
     if (tF < 0).any():
         a, x = np.argwhere(tF < 0)[0]
